@@ -173,12 +173,20 @@ def _local_callees(prog, body):
 
 def skeleton(prog, chk):
     chain = [("expr", "logical"), ("logical", "comparison"), ("comparison", "term"), ("term", "factor"), ("factor", "primary"), ("primary", "primary_inner"), ("expr_list", "expr")]
+    # the atom level (numbers, variables, parentheses, calls, unary minus) is `primary_inner` under `primary`; where the
+    # two are one function (the inner one was split into helpers that are read as part of their caller) that function is
+    # the atom level and - through parentheses, arguments and the unary minus - the only one that may call upwards
+    merged_atom = prog.maybe_body(EXPR + "primary_inner") is None
+    if merged_atom:
+        chain = [c_ for c_ in chain if c_ != ("primary", "primary_inner")]
     for a, b in chain:
         fa = _fn(prog, a)
         chk.touch(fa)
         chk.ob(EXPR + b in _local_callees(prog, fa), "A1.grammar", f"{a}->{b}", fa.where(), f"{a}() parses its operands with {b}()", f"{a}() no longer calls {b}(): the precedence chain is broken")
     # no level calls a looser level directly (other than through parentheses / calls in primary_inner)
     order = ["expr_list", "expr", "logical", "comparison", "term", "factor", "primary"]
+    if merged_atom:
+        order = order[:-1]
     for i, a in enumerate(order):
         fa = _fn(prog, a)
         bad = [b for b in order[: i + 1] if EXPR + b in _local_callees(prog, fa)]
@@ -191,7 +199,7 @@ def skeleton(prog, chk):
         inloop = [bb for (bb, t, c) in fa.call_sites(R.path_is(EXPR + b)) if any(bb in bl for bl in fa.loops.values())]
         chk.ob(bool(inloop), "A1.grammar", f"{a}:loop", fa.where(), f"{a}() consumes a chain of operators in a loop, each right operand parsed by {b}() (left-to-right)", f"{a}() does not parse repeated operators in a loop")
     # unary minus / parentheses in primary_inner
-    pi = prog.body(EXPR + "primary_inner")
+    pi = prog.body(EXPR + ("primary" if merged_atom else "primary_inner"))
     h = prog.hir[pi.id]
     arms = {k: prog.hir_expand(v) for k, v in _arms_by_variant(h).items()}  # an arm that hands over to a new helper: the helper's body counts
     sub = arms.get("Sub")
